@@ -173,12 +173,13 @@ func TestVerifReplay(t *testing.T) {
 	prog, _ := os.Create(out + ".progress")
 	var cur int64 = -1
 	var curStart int64
+	limit := time.Duration(envIntOr("VERIF_WATCHDOG_S", 30)) * time.Second // a behaviour takes milliseconds; generous for loaded machines
 	go func() {
 		for {
 			time.Sleep(200 * time.Millisecond)
 			c, st := atomic.LoadInt64(&cur), atomic.LoadInt64(&curStart)
-			if c >= 0 && time.Now().UnixNano()-st > int64(8*time.Second) && atomic.LoadInt64(&cur) == c {
-				fmt.Fprintf(os.Stderr, "WATCHDOG: behaviour %d exceeded 8s\n", c)
+			if c >= 0 && time.Now().UnixNano()-st > int64(limit) && atomic.LoadInt64(&cur) == c {
+				fmt.Fprintf(os.Stderr, "WATCHDOG: behaviour %d exceeded %v\n", c, limit)
 				os.Exit(3)
 			}
 		}
